@@ -6,6 +6,8 @@
 package mtproto
 
 import (
+	"bytes"
+	"compress/gzip"
 	"context"
 	"crypto/rsa"
 	"encoding/binary"
@@ -543,6 +545,11 @@ messageTypeSwitching:
 // the msg_id of the request (see sendPacket); an rpc_result names that id in its req_msg_id field.
 func (m *MTProto) expectedTypesFor(body []byte) []reflect.Type {
 	const reqMsgIDEnd = tl.WordLen + tl.LongLen
+	if len(body) >= tl.WordLen && binary.LittleEndian.Uint32(body) == objects.CrcGzipPacked {
+		// the whole message is packed (gzip_packed{rpc_result{…}}): the hints are those of the request the
+		// rpc_result inside names; its first bytes are enough to tell
+		body = gzipPackedHead(body[tl.WordLen:], reqMsgIDEnd)
+	}
 	if len(body) < reqMsgIDEnd || binary.LittleEndian.Uint32(body) != objects.CrcRpcResult {
 		return nil
 	}
@@ -550,6 +557,24 @@ func (m *MTProto) expectedTypesFor(body []byte) []reflect.Type {
 	reqMsgID := int(int64(binary.LittleEndian.Uint64(body[tl.WordLen:reqMsgIDEnd])))
 	et, _ := m.expectedTypes.Get(reqMsgID)
 	return et
+}
+
+// gzipPackedHead inflates the first n bytes of what a gzip_packed object holds (packed, the TL string that follows
+// its constructor id); nil if there is no such string or it does not inflate that far.
+func gzipPackedHead(packed []byte, n int) []byte {
+	d, err := tl.NewDecoder(bytes.NewReader(packed))
+	if err != nil {
+		return nil
+	}
+	gz, err := gzip.NewReader(bytes.NewReader(d.PopMessage()))
+	if err != nil {
+		return nil
+	}
+	head := make([]byte, n)
+	if _, err := io.ReadFull(gz, head); err != nil {
+		return nil
+	}
+	return head
 }
 
 func (m *MTProto) tryToProcessErr(e *ErrResponseCode) error {
